@@ -66,7 +66,7 @@ CFG = {
     text="PARTIAL. Theorem C13_partial (all finite lists with start<=end, any length/nesting/order/digests): diff terminates, trips no assertion, returns sorted disjoint well-formed ranges with bounds from the input. Not provable in a functional model: stack boundedness; its model-level shadow IS proved: the depth-instrumented walk refines the walk, depth <= |peer| always, a nested chain of n ranges reaches depth n, and against the serialisation of a REAL tree the depth is <= root level + 1 (so library-produced trees are always safe and no fixed stack suffices for untrusted input: this clause is false of the algorithm as written = known finding F2). The model depth is tied to the REAL recursion depth observed through the crate's own tracing spans (ldepth stream, feature tracing). The stack part itself is decided by replaying nested chains on a 2 MiB thread in debug and release: depths <= 4096 must pass; the overflow at depth ~12000 is known finding F2.",
     assumptions=[A_TOTAL, A_MODEL, "machine stack not modelled (known finding F2)"]),
  "C14": dict(streams=S("tcfg","tmid","trand","twide","tdeep","tkeylen","tsmall"), level="proof",
-    theorems=[P+"C14_level", P+"C14_level_bound", P+"C14_root", P+"C14_pages"],
+    theorems=[P+"C14_level", P+"C14_level_bound", P+"C14_level_machine", P+"C14_level_machine_overflow", P+"C14_root", P+"C14_pages"],
     text="Theorems: level = declarative reference for every byte string and base; after any history the root hash and every page digest equal those of the reference construction built from the sorted content alone. The byte level (token order, SipHash-2-4-128 zero key, finish128 byte order) is executable Lean tied to the siphasher crate and the library by the sip/lvl/hash streams over bases and widths; an independent Rust reference implementation is the implementation-side oracle.",
     assumptions=[A_TOTAL, A_LVL, A_MODEL, "SipHash-2-4-128 modelled, not verified"]),
  "C15": dict(streams=S("tsmall","tmid","trand","twide","tdeep","tkeylen","tlong","dsmall","drand", profiles=["debug","release"]), level="proof",
